@@ -3239,3 +3239,116 @@ async fn fork_blocks_with_overflowing_burn_fees_are_refused_not_fatal() {
         assert_eq!(blockchain.get_latest_block_hash(), block3_hash);
     }
 }
+
+/// C14: after a reorganisation no pooled transaction is one the new longest chain has already confirmed
+#[tokio::test]
+#[serial_test::serial]
+async fn fork_that_overtakes_the_chain_takes_its_transactions_out_of_the_pool() {
+    #[allow(unused_imports)] use crate::core::util::test::test_manager::test::TestManager;
+    #[allow(unused_imports)] use crate::core::consensus::blockchain::AddBlockResult;
+    #[allow(unused_imports)] use crate::core::util::crypto::hash;
+    use crate::core::consensus::transaction::Transaction;
+
+    let mut t = TestManager::default();
+    t.initialize(100, 200_000_000_000_000).await;
+    let (block1_hash, ts) = {
+        let blockchain = t.blockchain_lock.read().await;
+        let block1 = blockchain.get_latest_block().unwrap();
+        (block1.hash, block1.timestamp)
+    };
+
+    // the node's own chain : block 2 on block 1
+    let mut block2 = t
+        .create_block(block1_hash, ts + 120_000, 0, 0, 0, true)
+        .await;
+    block2.generate().unwrap();
+    let block2_hash = block2.hash;
+    let result = t.add_block(block2).await;
+    assert!(matches!(
+        result,
+        AddBlockResult::BlockAddedSuccessfully(_, true, _)
+    ));
+
+    // a free transaction (no payment, no fee) reaches the node and is pooled
+    let (public_key, private_key) = {
+        let wallet = t.wallet_lock.read().await;
+        (wallet.public_key, wallet.private_key)
+    };
+    let mut free_tx = {
+        let mut wallet = t.wallet_lock.write().await;
+        Transaction::create(&mut wallet, public_key, 0, 0, false, None, 2, 100).unwrap()
+    };
+    free_tx.data = vec![1, 2, 3, 4];
+    free_tx.sign(&private_key);
+    free_tx.generate(&public_key, 0, 0);
+    {
+        let blockchain = t.blockchain_lock.read().await;
+        let mut mempool = t.mempool_lock.write().await;
+        mempool
+            .add_transaction_if_validates(free_tx.clone(), &blockchain)
+            .await;
+        assert!(
+            mempool.transactions.contains_key(&free_tx.signature),
+            "setup : the free transaction is pooled"
+        );
+    }
+
+    // a peer built on block 1 as well : its block 2 carries the free transaction
+    let mut block2_2 = t
+        .create_block(block1_hash, ts + 120_001, 0, 0, 0, false)
+        .await;
+    block2_2.add_transaction(free_tx.clone());
+    block2_2.merkle_root = block2_2.generate_merkle_root(false, false);
+    block2_2.generate().unwrap();
+    block2_2.sign(&private_key);
+    let block2_2_hash = block2_2.hash;
+    let result = t.add_block(block2_2).await;
+    assert!(
+        matches!(
+            result,
+            AddBlockResult::BlockAddedSuccessfully(_, false, _)
+        ),
+        "setup : the peer's block 2 is stored next to the chain : {:?}",
+        result
+    );
+    assert_eq!(t.get_latest_block_hash().await, block2_hash);
+
+    // ... and the peer's block 3 makes that fork the longest chain
+    let mut block3_2 = t
+        .create_block(block2_2_hash, ts + 240_000, 1, 0, 0, false)
+        .await;
+    block3_2.generate().unwrap();
+    let block3_2_hash = block3_2.hash;
+    let result = t.add_block(block3_2).await;
+    assert!(
+        matches!(
+            result,
+            AddBlockResult::BlockAddedSuccessfully(_, true, _)
+        ),
+        "setup : the peer's block 3 is accepted as the new tip : {:?}",
+        result
+    );
+    {
+        let blockchain = t.blockchain_lock.read().await;
+        assert_eq!(blockchain.get_latest_block_hash(), block3_2_hash);
+        assert_eq!(
+            blockchain
+                .blockring
+                .get_longest_chain_block_hash_at_block_id(2),
+            Some(block2_2_hash),
+            "setup : the peer's block 2 is on the longest chain now"
+        );
+        let block = blockchain.get_block(&block2_2_hash).unwrap();
+        assert!(block.in_longest_chain);
+        assert!(
+            block
+                .transactions
+                .iter()
+                .any(|tx| tx.signature == free_tx.signature),
+            "setup : the free transaction is confirmed by a block of the longest chain"
+        );
+    }
+
+    let mempool = t.mempool_lock.read().await;
+    if !(!mempool.transactions.contains_key(&free_tx.signature)) { witness(format!("a transaction confirmed by a fork block that was stored first and joined the longest chain in a later reorganisation stays in the pool (and is bundled into the chain a second time) since commit e668c9f")); }
+}
